@@ -131,8 +131,26 @@ func newRig(actors []string) *rig {
 		panic(err)
 	}
 	r := &rig{e: e, pids: map[string]*actor.PID{}}
+	// every actor sits behind a middleware that looks at the delivery before and after the receiver ran: message and
+	// sender of a delivery are what they are for everybody in the chain, whatever the receiver does with the context
+	audit := func(self string) actor.MiddlewareFunc {
+		return func(next actor.ReceiveFunc) actor.ReceiveFunc {
+			return func(c *actor.Context) {
+				m0, s0 := c.Message(), c.Sender()
+				next(c)
+				if _, ok := m0.(routeMsg); !ok {
+					return
+				}
+				if m1, s1 := c.Message(), c.Sender(); m1 != m0 || s1 != s0 {
+					r.mu.Lock()
+					r.extra = append(r.extra, fmt.Sprintf("a middleware of %s saw message %v from %s before the receiver ran and message %v from %s afterwards", self, m0, r.name(s0), m1, r.name(s1)))
+					r.mu.Unlock()
+				}
+			}
+		}
+	}
 	for _, a := range actors {
-		r.pids[a] = e.Spawn(r.receiver(a), "route", actor.WithID(a))
+		r.pids[a] = e.Spawn(r.receiver(a), "route", actor.WithID(a), actor.WithMiddleware(audit(a)))
 	}
 	r.pids["gone"] = actor.NewPID(e.Address(), "route/gone")
 	mon := e.SpawnFunc(func(c *actor.Context) {
